@@ -2,6 +2,7 @@ package rules
 
 import (
 	"fmt"
+	"go/token"
 	"go/types"
 	"strings"
 
@@ -125,6 +126,7 @@ func runC07(r *engine.Run) {
 	r.Rule("DOM-commit", "StateCache.commit adds the block's entries to the per-key versions maps and publishes the block's link (commitRound stores it); it returns before doing so only where the lookup of the block's own link hit (already committed)")
 	r.Rule("KEY-same", "see C06: entries are stored under the key and block hash they belong to, tombstone arms store deleted=true, a transaction's commit forwards its own pairs")
 	r.Rule("FRESH-write", "see C06: in TransactionCache.Set, BlockCache.Set and BlockCache.setValue every entry stored into the pending map carries in its data field the result of a Clone() call (provenance dataflow over the local entry), never the previous entry's object refreshed in place")
+	r.Rule("DOM-txreset", "see C06: Commit hands the pending writes to the block cache and then empties the transaction's pending map: every return of TransactionCache.Commit is dominated by a store of a new map into the field (or clear / delete of every iterated key) that comes after the hand-over loop. Entries left behind keep answering as own uncommitted writes and are pushed again by the next Commit")
 	r.Rule("DOM-commitall", "see C06: inside StateCache.commit's loop over the block's pending map, the next iteration is not reachable without adding the entry to the key's versions map: no write or tombstone of the block is skipped")
 	r.NotDec = append(r.NotDec, "after commit the committed values are what descendant lookups return (value-level; see C06)")
 	cloneBoundary(r, "C07")
@@ -137,6 +139,7 @@ func runC07(r *engine.Run) {
 	keySame(r)
 	freshWrite(r, "FRESH-write")
 	domCommitAll(r, "DOM-commitall")
+	domTxReset(r, "DOM-txreset")
 }
 
 // cloneBoundary checks every sink in package statecache.
@@ -524,4 +527,99 @@ func indexOf(xs []ssa.Instruction, x ssa.Instruction) int {
 		}
 	}
 	return -1
+}
+
+// domTxReset: Commit hands the transaction's pending writes over to the block
+// cache; afterwards the transaction cache holds no own uncommitted writes. If
+// the entries stayed, a later lookup through the same transaction cache would
+// still answer from them although another transaction of the block has since
+// overwritten or removed the key, and the next Commit would push the stale
+// entries into the block again.
+//
+// Rule: every return of (*TransactionCache).Commit is dominated by an emptying
+// of the pending map that comes after the hand-over loop: a store of a newly
+// made map into the field, clear(field), or a delete of the iterated key in
+// every iteration of the hand-over loop.
+func domTxReset(r *engine.Run, rule string) {
+	f := r.Fn(rule, pkgSC, "TransactionCache", "Commit")
+	if f == nil {
+		return
+	}
+	cons := fn(f) + "|pending map emptied"
+	isCacheField := func(v ssa.Value) bool {
+		fa, ok := v.(*ssa.FieldAddr)
+		if !ok || len(f.Params) == 0 || fa.X != ssa.Value(f.Params[0]) {
+			return false
+		}
+		return fieldName(fa) == "TransactionCache.cache"
+	}
+	loadsCache := func(v ssa.Value) bool {
+		ld, ok := v.(*ssa.UnOp)
+		return ok && ld.Op == token.MUL && isCacheField(ld.X)
+	}
+	var handover *ssa.BasicBlock
+	var resets []ssa.Instruction
+	engine.Instrs(f, func(in ssa.Instruction) {
+		switch x := in.(type) {
+		case *ssa.Store:
+			if _, ok := x.Val.(*ssa.MakeMap); ok && isCacheField(x.Addr) && !inCycle(x.Block()) {
+				resets = append(resets, x)
+			}
+		case *ssa.Call:
+			if b, ok := x.Common().Value.(*ssa.Builtin); ok && len(x.Common().Args) > 0 && loadsCache(x.Common().Args[0]) {
+				if b.Name() == "clear" && !inCycle(x.Block()) {
+					resets = append(resets, x)
+				}
+				if b.Name() == "delete" && inCycle(x.Block()) {
+					if head := loopHeadOf(x.Block()); head != nil && (head == x.Block() || !loopBypass(head, x.Block())) {
+						resets = append(resets, x)
+					}
+				}
+			}
+			if x.Common().IsInvoke() && x.Common().Method.Name() == "setValue" {
+				handover = x.Block()
+			}
+		}
+	})
+	if handover == nil {
+		r.Anchor(rule, fmt.Errorf("unresolved anchor: the hand-over call (setValue on the block cache) in %s", fn(f)))
+		return
+	}
+	ok := len(resets) > 0
+	pos := r.P.Pos(f.Pos())
+	for _, b := range f.Blocks {
+		ret, isRet := b.Instrs[len(b.Instrs)-1].(*ssa.Return)
+		if !isRet || b == f.Recover {
+			continue
+		}
+		dom := false
+		for _, rs := range resets {
+			eff := rs.Block()
+			if _, isCall := rs.(*ssa.Call); isCall && inCycle(eff) {
+				// delete of the iterated key in every iteration: the loop empties the map
+				eff = loopHeadOf(eff)
+			}
+			if eff != nil && eff.Dominates(b) {
+				dom = true
+			}
+		}
+		if !dom {
+			ok = false
+			if ret.Pos().IsValid() {
+				pos = r.P.Pos(ret.Pos())
+			}
+		}
+	}
+	// the emptying may not precede the hand-over
+	for _, rs := range resets {
+		if _, isDel := rs.(*ssa.Call); isDel && inCycle(rs.Block()) {
+			continue
+		}
+		if rs.Block() != handover && engine.Reachable(rs.Block(), handover) {
+			ok = false
+			pos = r.P.Pos(rs.Pos())
+		}
+	}
+	r.Check(ok, rule, cons, pos, "every return of Commit follows the hand-over loop and an emptying of the transaction's pending map",
+		"Commit can return with the committed entries still in the transaction's pending map: they keep answering lookups as 'own uncommitted writes' after another transaction of the block overwrote or removed the key, and the next Commit of this transaction cache pushes the stale entries over the newer ones")
 }
